@@ -58,6 +58,7 @@ fn worker(id: &str, tier: Tier, k: u64, n: u64, out: &str) {
     let budget = tier.pick(p.budget_s.0, p.budget_s.1);
     crumb::install(&format!("{out}.crumb"), tier.pick(10, 30));
     let mut c = Ctx::new(id, tier, k, n, seed(), budget);
+    c.snapshot_path = Some(out.to_string());
     let r = std::panic::catch_unwind(std::panic::AssertUnwindSafe(|| (p.run)(&mut c)));
     if let Err(e) = r {
         let msg = if let Some(s) = e.downcast_ref::<String>() {
@@ -159,9 +160,15 @@ fn check(id: &str, tier: Tier) -> i32 {
                     );
                     merged.violations_total += 1;
                 }
-                _ => machinery.push(format!("worker {k} failed ({status:?}) without a usable breadcrumb")),
+                _ => {
+                    machinery.push(format!("worker {k} failed ({status:?}) without a usable breadcrumb"));
+                    continue;
+                }
             }
-            continue;
+            // fall through: merge the partial report the worker left behind, if any
+            if !out.exists() {
+                continue;
+            }
         }
         let rep: Report = match std::fs::read(&out).ok().and_then(|b| serde_json::from_slice(&b).ok()) {
             Some(r) => r,
@@ -217,13 +224,15 @@ fn check(id: &str, tier: Tier) -> i32 {
     }
     let _ = std::fs::remove_dir_all(&work);
 
-    // vacuity guards
-    for g in &p.guards {
+    // vacuity guards (not evaluated when a worker died inside the subject: its counters are lost,
+    // and the crash itself is reported as a violation)
+    let crashed = vio.keys().any(|k| k.starts_with("abort|"));
+    for g in p.guards.iter().filter(|_| !crashed) {
         if merged.guards.get(*g).copied().unwrap_or(0) == 0 {
             machinery.push(format!("vacuity guard '{g}' never witnessed"));
         }
     }
-    if merged.evaluations == 0 {
+    if merged.evaluations == 0 && !crashed {
         machinery.push("no evaluations".into());
     }
 
